@@ -223,6 +223,10 @@ fn run_nnf(ctx: &Ctx, rng: &mut Rng, out: &mut dyn Write) {
     let srcs = sources(ctx, rng);
     let mut k = 0usize;
     for src in srcs.iter() {
+        // thorough: the 65 535 functions over 4 features are sampled (1 in 12), everything else is taken
+        if src.desc.starts_with("table n=4") && !quick && !rng.chance(1, 12) {
+            continue;
+        }
         let inp = match make_input(format!("c11n-{}", k), src, rng) {
             Some(i) => i,
             None => continue,
